@@ -73,6 +73,12 @@ def _build(form, xs, ys):
         return it
     if form == "copy":
         return Interpolation(Interpolation(list(xs), list(ys)))
+    if form == "copy_reset":
+        # the source of a copy, after the copy was given another table: it must still interpolate ITS table
+        src = Interpolation(list(xs), list(ys))
+        cpy = Interpolation(src)
+        cpy.set([100.0, 101.0, 103.0], [1.0, -4.0, 9.0])
+        return src
     raise ValueError(form)
 
 
@@ -113,7 +119,7 @@ def _tables(seed, shard, n):
             ys = [math.exp(x / 6.0) - 2.0 for x in xs]
         else:
             ys = [rng.uniform(-5, 5) for x in xs]
-        form = rng.choice(["lists", "tuples", "flat", "set", "set_twice", "copy"])
+        form = rng.choice(["lists", "tuples", "flat", "set", "set_twice", "copy", "copy_reset"])
         if form == "flat" and npts < 2:
             form = "lists"
         yield rng, xq, xs, ys, coefs, form
